@@ -29,7 +29,7 @@ def secs_of(case):
 
 
 def range_nan_case(case):
-    """Known deviation class of the real code (AttenuatedProofs.atten_refuted_range_nan):
+    """The class of the former deviation F19 (repaired; now an ordinary part of the domain):
     check_type='range', test_period given, and some present point whose trailing window
     (t - P, t] contains a missing value.  There Rolling.apply(np.ptp, raw=True) yields NaN (UNKNOWN)
     although the window holds observed values.  Exactly the negation of the refinement's
@@ -86,8 +86,7 @@ class Attenuated(Adapter):
         return (all(a < b for a, b in zip(ts, ts[1:])) and len(ts) == len(case["xs"])
                 and (tp is None or tp >= 0)
                 and (case["min_obs"] is None or case["min_obs"] >= 0)
-                and (case["min_period"] is None or case["min_period"] >= 0)
-                and not range_nan_case(case))
+                and (case["min_period"] is None or case["min_period"] >= 0))
 
     range_nan_case = staticmethod(range_nan_case)
 
